@@ -7,7 +7,7 @@ import string
 import sys
 import unicodedata
 
-from harness import core
+from harness import core, id2v
 
 ID = 'C21'
 TITLE = 'Generated identifiers are valid and unique'
@@ -26,7 +26,11 @@ RULE = ('requested names from streams {valid identifier, keyword in any case / w
         'every table must be valid, non-keyword, pairwise distinct case-insensitively, and such a bundle must not fail. '
         'A case is non-trivial when the chosen id differs from the requested text (sanitised, prefixed, suffixed or '
         'generated) or, for a valid request, when the avoid set is non-empty.')
-TRUSTED = ['Model/Ident.v is hand-written; it is compared on every run with identifiers._sanitize_ident, _add_suffix, '
+TRUSTED = ['harness/id2v.py translates every function of identifiers.py except the generator _make_letters into '
+           'coq/gen/Ident_gen.v on every run (validated by evaluating the translation and the running functions on the '
+           'same cases); Lib/IdPrelude.v gives the meaning of the Python constructs it uses; _make_letters, the regex '
+           'pattern texts and the imports are pinned by equality; loop fuels are declared in id2v.FUEL',
+           'Model/Ident.v is hand-written; it is compared on every run with identifiers._sanitize_ident, _add_suffix, '
            '_gen_ident, pick_table_ident, pick_col_ident, pick_col_ident_list on the generated cases (vm_compute)',
            'the three regular expressions are re-implemented by hand in the model (sub_invalid, fix_start, ends_in_digit)',
            'library oracles (Section variables): unicodedata.normalize/combining, str.upper, str.capitalize, re \\d; '
@@ -55,6 +59,7 @@ LEVEL_NOTE = ('Trusted: Coq kernel, the hand-written model (validated differenti
               'equality, as in the code; for ASCII names this is ordinary ASCII case folding (separate theorem).')
 
 KW_GEN = os.path.join(core.COQ, 'gen', 'Kwlist_gen.v')
+SRC_GEN = os.path.join(core.COQ, 'gen', 'Ident_gen.v')
 ID_RE = re.compile(r'[A-Za-z][A-Za-z0-9_]*')
 CALL_LIMIT_S = 3.0
 LIMIT = [CALL_LIMIT_S]      # current per-call limit (lowered while shrinking a non-terminating call)
@@ -120,6 +125,12 @@ def regenerate(ctx):
   lines.append(';\n'.join('  %s (* %s *)' % (core.strlit(k), k) for k in kws))
   lines.append('].')
   core.write_if_changed(KW_GEN, '\n'.join(lines) + '\n')
+  # the functions of identifiers.py themselves, translated from the current source
+  try:
+    text = id2v.translate_module(os.path.join(core.GRIST, 'identifiers.py'))
+  except id2v.Untranslatable as e:
+    raise core.TieBroken('identifiers.py is outside the translated fragment: %s' % e)
+  core.write_if_changed(SRC_GEN, text)
 
 
 # ---------------------------------------------------------------------------------------------------
@@ -592,13 +603,46 @@ def _build(ctx, ids, rng, out, seen, N, pick_case):
       tables_for(idents, avoid + rs), core.coq_list([ostr(s) for s in idents]), strs(avoid), strs(rs)), rs))
 
 
+SRC_CHECK = '''
+Definition check_case_src (kw : list str) (c : ccase) : bool :=
+  match c with
+  | case_sanitize t i prefix cap out =>
+      opt_str_eqb (src_sanitize_ident (t_nfkd t) (t_comb t) (t_cap t) kw i prefix cap) out
+  | case_suffix t base avoid k out => opt_str_eqb (src_add_suffix (t_upper t) (t_udigit t) base avoid k) out
+  | case_gen t avoid out => opt_str_eqb (src_gen_ident (t_upper t) avoid) out
+  | case_table t i avoid out =>
+      opt_str_eqb (src_pick_table_ident (t_nfkd t) (t_comb t) (t_upper t) (t_cap t) (t_udigit t) kw i avoid) out
+  | case_col t i avoid out =>
+      opt_str_eqb (src_pick_col_ident (t_nfkd t) (t_comb t) (t_upper t) (t_cap t) (t_udigit t) kw i avoid) out
+  | case_list t i avoid out =>
+      opt_strs_eqb (src_pick_col_ident_list (t_nfkd t) (t_comb t) (t_upper t) (t_cap t) (t_udigit t) kw i avoid) out
+  end.
+'''
+
+
 def correspond(ctx):
   cases, seen = build_cases(ctx)
   ctx._c21_cases = cases
   monitors(ctx, seen)
   flat = [(key, c) for key in ('sanitize', 'suffix', 'gen', 'table', 'col', 'list') for c in cases[key]]
-  bad = ctx.run_cases('ident', ['Grist.Model.Ident', 'GristGen.Kwlist_gen'], 'check_case kwlist',
-                      [c[1] for _key, c in flat], shard=ctx.n(250, 400))
+  imports = ['Grist.Model.Ident', 'GristGen.Kwlist_gen', 'Grist.Lib.IdPrelude', 'GristGen.Ident_gen']
+  both = ctx.run_cases('ident', imports, 'fun c => check_case kwlist c && check_case_src kwlist c',
+                       [c[1] for _key, c in flat], shard=ctx.n(250, 400), extra_defs=SRC_CHECK)
+  bad, bad_src = [], []
+  if both:
+    # attribute the disagreements: hand model vs implementation, translated source vs implementation
+    sub = [flat[i][1][1] for i in both]
+    m = set(ctx.run_cases('ident_model', imports, 'check_case kwlist', sub, shard=400, extra_defs=SRC_CHECK))
+    t = set(ctx.run_cases('ident_src', imports, 'check_case_src kwlist', sub, shard=400, extra_defs=SRC_CHECK))
+    bad = [i for k, i in enumerate(both) if k in m]
+    bad_src = [i for k, i in enumerate(both) if k in t]
+  ctx.extra['translator_validation'] = {
+    'translator': 'harness/id2v.py', 'generated': 'coq/gen/Ident_gen.v',
+    'functions': [id2v.SIGS[n][0] for n in id2v.ORDER], 'cases': len(flat), 'disagreements': len(bad_src)}
+  for i in bad_src[:3]:
+    key, c = flat[i]
+    ctx.broken('translation:id2v output of %s differs from the running function' % key,
+               'input %r -> implementation %r' % (c[0], c[2]))
   shown = {}
   for i in bad:
     key, c = flat[i]
@@ -606,7 +650,18 @@ def correspond(ctx):
     if shown[key] <= 3:
       ctx.broken('correspondence:model of %s differs from identifiers.py' % key,
                  'input %r -> implementation %r' % (c[0], c[2]))
+  bad = sorted(set(bad) | set(bad_src))
   ctx._c21_disagree = [flat[i] for i in bad]
+  import itertools
+  want = list(itertools.islice(impl()._make_letters(), ctx.n(800, 20000)))
+  idx = sorted(set(range(0, 60)) | set(range(690, 760)) | {len(want) - 1} | set(ctx.rng.sample(range(len(want)), 60)))
+  idx = [i for i in idx if i < len(want)]
+  badl = ctx.run_cases('letters', ['Grist.Model.Ident', 'Grist.Lib.IdPrelude'],
+                       'fun c => str_eqb (make_letters (fst c)) (snd c)',
+                       ['(%d%%nat, %s)' % (i, core.strlit(want[i])) for i in idx], shard=400)
+  ctx.bump('compared:_make_letters', len(idx))
+  for i in badl[:3]:
+    ctx.broken('correspondence:IdPrelude.make_letters differs from identifiers._make_letters', 'index %d' % idx[i])
   for key in cases:
     ctx.bump('compared:' + key, len(cases[key]))
 
@@ -684,7 +739,7 @@ def focused_search(ctx):
             found.add((bad[0], w['fn']))
             small = shrink(w, bad[0])
             ctx.violation(bad[0], (oracle(small) or bad)[1], small)
-          if len(ctx.violations) > 20 or TIMEOUTS[0] >= 2 * MAX_TIMEOUTS:
+          if len(ctx.violations) > 20 or TIMEOUTS[0] >= 2 * MAX_TIMEOUTS or tried >= 40000:
             ctx.log('focused search around %d disagreeing inputs: %d calls, %d failure modes' %
                     (len(dis), tried, len(found)))
             return
